@@ -169,6 +169,22 @@ Theorem to_uint32_in_range : forall z, 0 <= to_uint32 z < 4294967296.
 Proof. exact to_uint32_range. Qed.
 Print Assumptions to_uint32_in_range.
 
+(* THE LEASE DOES NOT DEPEND ON THE REQUEST CONTEXT.  AcquireCtx with a live context - no deadline,
+   or a deadline any number of ms away, closer than the lease or not - is Acquire: same answer, same
+   state; and whenever it succeeds (first acquisition or the holder's refresh) the key's TTL read
+   right after is seconds*1000+500 exactly.  (Seeded C19-7 capped it: Pinned.lease_capped_by_context_refuted.) *)
+Theorem lease_independent_of_context : forall key s i dl,
+  step key s (OAcquireCtx i dl) = step key s (OAcquire i).
+Proof. exact lease_independent_of_context_all. Qed.
+Print Assumptions lease_independent_of_context.
+
+Theorem context_lease_exact : forall key s i l dl,
+  NoDup (ids s) -> secs_ok s -> nth_error (insts s) i = Some l ->
+  snd (step key s (OAcquireCtx i dl)) = RB true false ->
+  snd (step key (fst (step key s (OAcquireCtx i dl))) OTtl) = RT (Some (Some (isecs l * 1000 + 500))).
+Proof. exact ctx_lease_exact_all. Qed.
+Print Assumptions context_lease_exact.
+
 (* ---- non-vacuity: concrete histories meeting the hypotheses ---- *)
 Definition ex_key := BStr "lk".
 Definition ex_s := fst (step ex_key (init false ["idA"; "idB"; "idC"]) (OSetExpire 0 2)).
